@@ -131,6 +131,15 @@ fn shard(ctx: &ShardCtx, known: &Known) -> ShardOut {
             exhaustive = exhaustive && true;
         }
     });
+    // 3. a parent with hundreds to thousands of sibling buckets that are all opened in one transaction
+    for i in 0..ctx.tier.pick(1usize, 3) {
+        let n = [260u16, 520, 1030, 1100, 2100][(ctx.shard + i) % 5];
+        let case = crate::gen::wide_parent_history(n, (ctx.shard / 5 + i) as u8);
+        note_current(ctx, "history", &case);
+        let mut v = verdict(&case, &opts);
+        v.classes.push(format!("parent with {} sibling buckets, all opened in one transaction", n));
+        record_case(ctx, &mut out, known, "history", &case, v);
+    }
     clear_current(ctx);
     out.extra.insert(
         "shape_subsets".into(),
